@@ -474,6 +474,80 @@ func main() {
 				}
 			}
 		}})
+	ck.Domains = append(ck.Domains, &drv.Domain{Name: "expandmask-vector", Size: 3 * 400, Chunk: 50, Desc: "the vector-level mask sampler for every rejection-loop counter kappa = 0..399 (3 seeds): polynomial i equals ExpandMask(rho'', 7*kappa + i) (the 16-bit nonce crosses multiples of 256 many times)",
+		Run: func(c *drv.Ctx, lo, hi int64) {
+			for i := lo; i < hi; i++ {
+				c.At(i)
+				kappa := uint16(i % 400)
+				s64 := sha256.Sum256([]byte(fmt.Sprintf("verif-c07-mask-%d-%d", i/400, c.Seed)))
+				var seed64 [64]byte
+				copy(seed64[:], s64[:])
+				copy(seed64[32:], s64[:])
+				seed64[50] ^= 0x5A
+				y := dilithium.VerifPolyVecLUniformGamma1(seed64, kappa)
+				c.Eval(1)
+				c.Nontrivial(1)
+				for k := 0; k < refdil.L; k++ {
+					em := refdil.ExpandMask(seed64[:], uint16(refdil.L)*kappa+uint16(k))
+					if !eqRef(y[k], &em) {
+						c.Fail(i, "expandmask-vector", map[string]any{"kappa": kappa, "polynomial": k, "nonce": int(refdil.L)*int(kappa) + k})
+						break
+					}
+				}
+				c.Outcome("ok")
+			}
+		}})
+	ck.Domains = append(ck.Domains, &drv.Domain{Name: "returned-buffer-mutation", Size: 24, Chunk: 2, Desc: "Seal(m); the caller edits the RETURNED blob in place (message part, signature part); then Sign / Seal of the edited message and of the original: every result equals the specification's (a memo keyed on storage the library handed out shows here)",
+		Run: func(c *drv.Ctx, lo, hi int64) {
+			for i := lo; i < hi; i++ {
+				c.At(i)
+				seed := dilscope.Seed(int(i%4), c.Seed)
+				k := getKeys(seed)
+				lib, _ := dilithium.NewDilithiumFromSeed(seed)
+				m := []byte(fmt.Sprintf("returned buffer mutation %d ........", i))
+				m2 := append([]byte(nil), m...)
+				m2[3] ^= 0x20
+				m2[len(m2)-1] ^= 1
+				refSig := func(x []byte) []byte { return k.ref.Sign(x, refdil.Skip{}).Sig }
+				sm, _ := lib.Seal(m)
+				step := "seal"
+				check := func(got []byte, want []byte, what string) {
+					if !bytes.Equal(got, want) {
+						c.Fail(i, "returned-buffer-mutation:"+what, map[string]any{"after": step, "seed#": i % 4})
+					}
+				}
+				check(sm[:dilithium.CryptoBytes], refSig(m), "seal differs from specification")
+				switch i / 4 % 3 {
+				case 0: // edit the message part of the returned blob so that it now holds m2
+					copy(sm[dilithium.CryptoBytes:], m2)
+					step = "message part of the sealed blob edited to m2"
+				case 1: // edit the slice returned by ExtractMessage
+					em := dilithium.ExtractMessage(sm)
+					copy(em, m2)
+					step = "slice from ExtractMessage edited to m2"
+				case 2: // scribble over the signature part
+					for t := 0; t < 64; t++ {
+						sm[t] ^= 0xFF
+					}
+					step = "signature part of the sealed blob scribbled"
+				}
+				s2, _ := lib.Sign(m2)
+				check(s2[:], refSig(m2), "sign(m2) differs from specification")
+				s1, _ := lib.Sign(m)
+				check(s1[:], refSig(m), "sign(m) differs from specification")
+				if i/12 == 1 {
+					sm2, _ := lib.Seal(m2)
+					check(sm2[:dilithium.CryptoBytes], refSig(m2), "seal(m2) differs from specification")
+				}
+				pk := lib.GetPK()
+				if !dilithium.Verify(m2, s2, &pk) || !dilithium.Verify(m, s1, &pk) {
+					c.Fail(i, "returned-buffer-mutation:signature does not verify", map[string]any{"after": step})
+				}
+				c.Eval(3)
+				c.Nontrivial(1)
+				c.Outcome("ok")
+			}
+		}})
 	// call orders
 	ops := []string{"Sign(m0)", "Sign(m1)", "Seal(m0)", "Verify", "GetPK"}
 	var seqs [][]int
